@@ -513,8 +513,92 @@ def t_tls13_record_keys(a, seed, tier):
             sec = want
 
 
+def t_tls13_schedule_live(a, seed, tier):
+    """Secrets of a live TLS 1.3 handshake against RFC 8446 section 7.1,
+    computed from the master secret and the transcript the two ends really
+    exchanged (captured message by message): application traffic secrets,
+    exporter master secret (transcript ClientHello..server Finished) and
+    resumption master secret (..client Finished), with and without client
+    authentication and for both hashes."""
+    from .. import scen as S
+    from ..puppet import Puppet
+    from ..world import SEAMS, Pair, World
+    for (label, suite, ccred) in (
+            ("sha256", CS.TLS_AES_128_GCM_SHA256, None),
+            ("sha384", CS.TLS_AES_256_GCM_SHA384, None),
+            ("sha256-clientauth", CS.TLS_AES_128_GCM_SHA256, "c_rsa"),
+            ("sha384-clientauth", CS.TLS_AES_256_GCM_SHA384, "c_ecdsa"),
+            ("chacha-clientauth", CS.TLS_CHACHA20_POLY1305_SHA256,
+             "c_ed25519")):
+        sc = S.Scen("c09/ks-" + label, version=(3, 4), suite=suite,
+                    cred="rsa", client_cred=ccred, req_cert=bool(ccred),
+                    cset={"certificate_compression_send": [],
+                          "certificate_compression_receive": []},
+                    sset={"certificate_compression_send": [],
+                          "certificate_compression_receive": []})
+        SEAMS.reset(seed, sc.name)
+        pair = Pair(World())
+        caps = {"C": [], "S": []}
+
+        class AllCap(dict):
+            def __init__(self, who):
+                dict.__init__(self)
+                self.who = who
+
+            def get(self, i, default=None):
+                who = self.who
+
+                def f(d):
+                    caps[who].append(bytes(d))
+                    return None
+                return ("mutate", f)
+        pc = Puppet(pair.c, {})
+        pc.script = AllCap("C")
+        ps = Puppet(pair.s, {})
+        ps.script = AllCap("S")
+        SEAMS.current = "C"
+        cg = sc.client_gen(pair.c)
+        SEAMS.current = "S"
+        sg = sc.server_gen(pair.s)
+        SEAMS.current = "main"
+        out = pair.handshake(cg, sg, max_steps=60000)
+        if out["C"].status != "ok" or out["S"].status != "ok":
+            a.eq("tls13-live-handshake", [label], b"failed", b"ok")
+            continue
+        info = S.ALL_INFOS[suite]
+        h = info.prf
+        hl = 48 if h == "sha384" else 32
+        # handshake messages only (type byte in the known set), in order
+        def is_hs(m, types):
+            return len(m) >= 4 and m[0] in types and \
+                int.from_bytes(m[1:4], "big") == len(m) - 4
+        cmsgs = [m for m in caps["C"] if is_hs(m, (1, 11, 15, 20, 25))]
+        smsgs = [m for m in caps["S"] if is_hs(m, (2, 8, 11, 13, 15, 20,
+                                                   25))]
+        ch = cmsgs[0]
+        s_fin = [i for i, m in enumerate(smsgs) if m[0] == 20][0]
+        upto_sfin = ch + b"".join(smsgs[:s_fin + 1])
+        upto_cfin = upto_sfin + b"".join(cmsgs[1:])
+        t_sfin = hashlib.new(h, upto_sfin).digest()
+        t_cfin = hashlib.new(h, upto_cfin).digest()
+        sess = pair.c.session
+        master = bytes(sess.masterSecret)
+        a.eq("tls13-live-c-ap-traffic", [label], sess.cl_app_secret,
+             R.hkdf_expand_label(master, b"c ap traffic", t_sfin, hl, h))
+        a.eq("tls13-live-s-ap-traffic", [label], sess.sr_app_secret,
+             R.hkdf_expand_label(master, b"s ap traffic", t_sfin, hl, h))
+        for who, ep in (("client", pair.c), ("server", pair.s)):
+            a.eq("tls13-live-exporter-master", [label, who],
+                 ep.session.exporterMasterSecret,
+                 R.hkdf_expand_label(master, b"exp master", t_sfin, hl, h))
+            a.eq("tls13-live-resumption-master", [label, who],
+                 ep.session.resumptionMasterSecret,
+                 R.hkdf_expand_label(master, b"res master", t_cfin, hl, h))
+
+
 GROUPS = [t_block, t_cbc, t_stream, t_chacha_poly, t_hmac, t_prf, t_hkdf,
-          t_calc_key, t_exporter, t_tls13_record_keys]
+          t_calc_key, t_exporter, t_tls13_record_keys,
+          t_tls13_schedule_live]
 
 
 def run_group(item):
